@@ -21,7 +21,7 @@ func C12(c *Ctx) {
 	fix := [][2]int{{1, 2}, {2, 2}}
 	use := [][2]int{{1, 1}, {1, 2}, {2, 1}}
 	if c.Thorough() {
-		fix = append(fix, [2]int{3, 1}, [2]int{3, 2})
+		fix = append(fix, [2]int{3, 1})
 		use = append(use, [2]int{2, 2}, [2]int{3, 1})
 	}
 	c.Bound("fixpoints: all grammars with R rules (R,maxLen) in %v over nonterminals {X,Y,Z} and terminals {a,b}; usability: all rule sets (R,maxLen) in %v over the pool {A,B,S,N,T,U} with and without %%type T", fix, use)
